@@ -29,7 +29,7 @@ well-formed UTF-8, so the parser as `serde_html_form` uses it reads back all Rus
 theorem form_codec_lawful (ps : List (Str × Str))
     (ht : ∀ p ∈ ps, utf8Valid p.1 = true ∧ utf8Valid p.2 = true) :
     formParse (formSerialize ps) = ps ∧ 35 ∉ formSerialize ps :=
-  ⟨refForm.law ps ht, refForm.no_hash ps⟩
+  ⟨refForm_lawful.law ps ht, refForm_lawful.no_hash ps⟩
 
 example : formSerialize [(bs "a b", bs "x&y=z"), (bs "", bs "100%"), (bs "k", [195, 169]), (bs "k", bs "+#?")]
       = bs "a+b=x%26y%3Dz&=100%25&k=%C3%A9&k=%2B%23%3F"
@@ -52,7 +52,7 @@ findings F17 and F19 and descriptions with two header fields of one name are cou
 def RequestRoundtripStatement : Prop :=
   ∀ (F : FormCodec) (J : JsonCodec) (H : HttpLib) (d : ReqDesc) (v : ReqVal) (base : Str)
     (sat : SendAccessToken) (vs : List Version) (m : HttpRequest),
-    newOk d.history = true →
+    F.Lawful → J.Lawful → newOk d.history = true →
     (∀ p ∈ allPaths d.history, ∀ b ∈ p, b = 47 ∨ segmentUnsafe b = false) →
     d.macroAccepts = true → d.testsPass = true → v.Canon d → v.Text F d →
     tryIntoHttpRequest F J H d v base sat vs = .ok m →
@@ -81,6 +81,7 @@ Finding **F18** lives one level below (`QueryFieldTypesStatement`): `Some("")` i
 `Option<String>` query field is not the wire form of a value, so `Canon` does not hold for it. -/
 theorem request_roundtrip_partial (F : FormCodec) (J : JsonCodec) (H : HttpLib) (d : ReqDesc)
     (v : ReqVal) (base : Str) (sat : SendAccessToken) (vs : List Version) (m : HttpRequest)
+    (hF : F.Lawful) (hJ : J.Lawful)
     (hnew : newOk d.history = true)
     (hsafe : ∀ p ∈ allPaths d.history, ∀ b ∈ p, b = 47 ∨ segmentUnsafe b = false)
     (hmacro : d.macroAccepts = true) (htests : d.testsPass = true)
@@ -94,7 +95,7 @@ theorem request_roundtrip_partial (F : FormCodec) (J : JsonCodec) (H : HttpLib) 
       ∧ ∀ v', tryFromHttpRequest F J d a = .ok v' →
           tryIntoHttpRequest F J H d v' base sat vs = .ok m := by
   obtain ⟨tmpl, a, h1, h2, h3⟩ :=
-    request_roundtrip' F J H d v base sat vs m hnew hsafe hmacro htests hhn hcanon htext hvis himp henc
+    request_roundtrip' F hF J hJ H d v base sat vs m hnew hsafe hmacro htests hhn hcanon htext hvis himp henc
   refine ⟨tmpl, a, h1, h2, h3, ?_⟩
   intro v' hv'
   rw [h3] at hv'
@@ -151,9 +152,11 @@ below, none of which has a JSON body. -/
 def noJson : JsonCodec where
   ser := fun _ => none
   parse := fun b => if b = bs "{}" then some (.obj []) else none
+
+theorem noJson_lawful : noJson.Lawful where
   law := by intro v b h; cases h
   ser_ne := by intro v b h; cases h
-  empty_obj := by simp
+  empty_obj := by simp [noJson]
 
 def anyUri : HttpLib := ⟨fun _ => true⟩
 
@@ -204,7 +207,8 @@ theorem request_statement_false : ¬ RequestRoundtripStatement := by
     · intro f hf; cases hf
     · intro x hx; cases hx
     · intro x hx; cases hx
-  obtain ⟨tmpl, a, hsel, hd, hdec'⟩ := h refForm noJson anyUri dF17 _ (bs "https://h") .none [] _ hn
+  obtain ⟨tmpl, a, hsel, hd, hdec'⟩ := h refForm noJson anyUri dF17 _ (bs "https://h") .none [] _
+    refForm_lawful noJson_lawful hn
     (by decide) hm ht hcanon htext henc
   have : tmpl = bs "/_synthetic/upload" := by
     have : selectPath dF17.history [] = .ok (bs "/_synthetic/upload") := by decide
@@ -281,7 +285,7 @@ example :
 F19, and F17's response-side twin — an `Option` header field named `Content-Type` that is `None`). -/
 def ResponseRoundtripStatement : Prop :=
   ∀ (J : JsonCodec) (d : RespDesc) (v : RespVal) (r : HttpResponse),
-    d.macroAccepts = true → d.supported = true → d.status < 400 → v.Canon d →
+    J.Lawful → d.macroAccepts = true → d.supported = true → d.status < 400 → v.Canon d →
     tryIntoHttpResponse J d v = .ok r → tryFromHttpResponse J d r = .ok v
 
 /-- For EVERY lawful JSON library, EVERY response description `#[response]` accepts (header, body,
@@ -293,7 +297,7 @@ header values that are not visible ASCII (`hvis`, **F19**), and an `Option` head
 `Content-Type` holding `None` (`himp`, the response-side form of **F17**: the builder always sets
 `Content-Type: application/json`). -/
 theorem response_roundtrip_partial (J : JsonCodec) (d : RespDesc) (v : RespVal) (r : HttpResponse)
-    (hmacro : d.macroAccepts = true) (hsup : d.supported = true) (hstatus : d.status < 400)
+    (hJ : J.Lawful) (hmacro : d.macroAccepts = true) (hsup : d.supported = true) (hstatus : d.status < 400)
     (hcanon : v.Canon d)
     (hhn : (d.headerFields.map (·.header)).Nodup)
     (hvis : ∀ s, some s ∈ v.header → headerToStrOk s = true)
@@ -301,7 +305,7 @@ theorem response_roundtrip_partial (J : JsonCodec) (d : RespDesc) (v : RespVal) 
     (henc : tryIntoHttpResponse J d v = .ok r) :
     tryFromHttpResponse J d r = .ok v
     ∧ ∀ v', tryFromHttpResponse J d r = .ok v' → tryIntoHttpResponse J d v' = .ok r := by
-  have h := response_roundtrip' J d v r hmacro hsup hstatus hhn hcanon hvis himp henc
+  have h := response_roundtrip' J hJ d v r hmacro hsup hstatus hhn hcanon hvis himp henc
   refine ⟨h, ?_⟩
   intro v' hv'
   rw [h] at hv'
@@ -338,7 +342,7 @@ theorem response_statement_false : ¬ ResponseRoundtripStatement := by
   have henc : tryIntoHttpResponse noJson d v = .ok ⟨200, [(contentType, applicationJson)], [7]⟩ := by rfl
   have hdec : tryFromHttpResponse noJson d ⟨200, [(contentType, applicationJson)], [7]⟩
       = .ok { header := [some applicationJson], raw := [[7]] } := by rfl
-  have := h noJson d v _ (by decide) (by decide) (by decide) ⟨⟨rfl, trivial⟩, trivial⟩ henc
+  have := h noJson d v _ noJson_lawful (by decide) (by decide) (by decide) ⟨⟨rfl, trivial⟩, trivial⟩ henc
   rw [hdec] at this
   have := congrArg (fun o => match o with | FromResp.ok v => v.header | _ => []) this
   simp [v] at this
